@@ -121,7 +121,7 @@ def expressions(depth: int) -> Iterator[Tuple[str, str, str]]:
         yield from emit("all-foreach-len", tag, f"all(len(x) > 0 for x in {atom})")
         yield from emit("all-forrange", tag, f"all({atom}[j] > 0 for j in range(len({atom})))")
         yield from emit("all-forrange-const", tag, f"all(j >= 0 for j in range({atom}))")
-        yield from emit("all-foreach-if", tag, f"all(x > 0 for x in {atom} if x != 1)")
+        yield from emit("all-foreach-if", tag, f"all(x > 1 for x in {atom} if x != 1)")
     junction_atoms = [a for a in ATOMS if a[0] in (
         "self.b", "True", "self.i", "self.s", "self.os", "self.li", "self.c", "self.e", "self.f"
     )]
